@@ -49,6 +49,7 @@ def build(host_active, eq_initial):
     dv.value = "x"
     eq.data_values[30] = dv
     eq.equipment_constants[20] = secsgem.gem.EquipmentConstant(20, "ec20", 0, 10, 5, "mm", V.I2)
+    eq.equipment_constants[21] = secsgem.gem.EquipmentConstant(21, "ec21", 0, 100, 50, "", V.U1)
     eq.alarms[25] = secsgem.gem.Alarm(25, "alarm25", "text25", 1, 100025, 200025)
     eq.collection_events[50] = secsgem.gem.CollectionEvent(50, "ce50", [30])
     return host, eq, hs, es
@@ -103,6 +104,13 @@ def run_one(devs, budgets, host_active=True, order="host-first", eq_initial="ONL
             r = host.set_ec(20, new)
             expect(f"set_ec-ack|{tag}", r, 0)
             expect(f"set_ec-applied|{tag}", eq.equipment_constants[20].value, new)
+            # a request naming two constants whose second value is out of range is refused and changes nothing
+            r = host.set_ecs([[20, 4 if new != 4 else 6], [21, 101]])
+            if r == 0:
+                bad((f"service-call|set_ecs-accepts-out-of-range|{tag}", {"got": r}))
+            expect(f"set_ecs-refused-but-applied|{tag}", [eq.equipment_constants[20].value, eq.equipment_constants[21].value], [new, 50])
+            r = host.request_ecs([20, 21])
+            expect(f"request_ecs-after-refusal|{tag}", None if r is None else r.get(), [new, 50])
             r = host.list_ecs([20])
             expect(f"list_ecs|{tag}", None if r is None else [(x["ECID"], x["ECNAME"], x["ECMIN"], x["ECMAX"], x["ECDEF"]) for x in r.get()],
                    [(20, "ec20", 0, 10, 5)])
@@ -284,7 +292,7 @@ def run(ctx):
     ctx.setcov("transitions", tot)
     ctx.setcov("traces_validated_against_impl", tot)
     ctx.setcov("parts", parts)
-    ctx.sample({"script": "enable both, wait communicating, 11 host service calls, subscribe + trigger event, clear + subscribe again + trigger, go offline/online, remote command, "
+    ctx.sample({"script": "enable both, wait communicating, 13 host service calls, subscribe + trigger event, clear + subscribe again + trigger, go offline/online, remote command, "
                           "restart host, restart equipment", "first": parts[0]})
 
 
